@@ -22,6 +22,10 @@ var Logger = func() logrus.FieldLogger {
 	l := logrus.New()
 	l.SetOutput(io.Discard)
 	l.SetLevel(logrus.PanicLevel)
+	if os.Getenv("VERIF_LOG") != "" { // debugging a failing case by hand
+		l.SetOutput(os.Stderr)
+		l.SetLevel(logrus.InfoLevel)
+	}
 	return l
 }()
 
